@@ -159,6 +159,8 @@ class IndexOps:
             td = np.timedelta64(20 + len(m.raw), 'D')
             if norm(td) not in held:
                 return {'td': [20 + len(m.raw), 'D']}  # a duration next to whatever is held: nothing held may be converted
+        if e.extra.get('auto') and ch.chance(0.08):
+            return float(len(m.raw))  # equal to the next position, but a float: a new label like any other
         if e.extra.get('auto') and ch.chance(0.6):
             return len(m.raw)  # keeps loc_is_iloc
         free = [x for x in pool if norm(x) not in held]
@@ -818,6 +820,18 @@ class IndexOps:
             st, c = call(lambda: fresh in obj)
             if st == 'raise' or c is not False:
                 fail(o, f'fresh label membership -> {c!r}')
+            if m.unit in ('M', 'Y') and m.raw:
+                # a date of finer resolution that falls inside a held period (not at its start) is not that period
+                x = str(m.raw[0])
+                fine = x + ('-15' if m.unit == 'M' else '-06')
+                st, c = call(lambda: fine in obj)
+                if st == 'raise' or c is not False:
+                    fail(o, f'membership of the finer-resolution date {fine!r} (held: {x!r}) -> {c!r}')
+            if e.extra.get('auto') and len(m.raw) >= 2:
+                for other in (0.5, len(m.raw) - 1.5):
+                    st, c = call(lambda: other in obj)
+                    if st == 'raise' or c is not False:
+                        fail(o, f'membership of the non-integer {other!r} in an auto-integer index -> {c!r}')
             if m.unit is not None:
                 # values that are not dates at all are not members either (and asking must not raise)
                 for other in ('never-used-label', ('a', 1)):
